@@ -45,6 +45,9 @@ def __text(value):
     Protobuf strings have to be valid UTF-8, python strings can contain lone surrogates (e.g. from
     surrogateescape decoding). One such value in a frame must not cost us the whole snapshot.
     """
+    if value is not None and not isinstance(value, str):
+        # e.g. the arguments of a tracepoint registered in code ({'fire_count': 5}): the wire type is text
+        value = str(value)
     if isinstance(value, str):
         try:
             value.encode('utf-8')
